@@ -430,6 +430,11 @@ def check_progress(rep, g, ev, label):
                 return True
             if name.endswith("std::iter::Iterator>::next") or name.endswith("::Iterator::next"):
                 return True
+            # a hand-written poll function polling an inner future of another crate (the mutex's lock future): the same progress as
+            # an await on it -- it completes once, or its Pending is what the caller returns
+            if (tc is not None and tc[0].split("::")[-1] == "Future" and tc[1] == "poll") or name.endswith("Future>::poll"):
+                if g.local_callee(n.frame, n.term["func"]) is None:
+                    return True
         return False
     keep = [n for n in nodes if not breaker(n) and not n.noise()]
     keepset = {n.key for n in keep}
